@@ -314,6 +314,9 @@ var corpus = map[string][]string{
 		// growth with two followers and unevenly spread free bits
 		"newmsg 2; newstd 4; newstd 4; newstd 4; insert 0 0 0; insert 0 1 6; insert 0 2 10; settype 0 8",
 		"newmsg 2; newstd 4; newstd 4; newstd 4; insert 0 0 0; insert 0 1 4; insert 0 2 12; settype 0 8",
+		// the non-vacuity examples of coq/C01/Examples.v: two refs in one message and the enum shrinks
+		"newmsg 2; newenum; addvalue 0 7; newenumsig 0; newenumsig 0; newstd 3; append 0 0; append 0 1; append 0 2; updateindex 0 1",
+		"newmsg 2; newmsg 1; newenum; newenumsig 0; newenumsig 0; newstd 4; newstd 3; newstd 2; append 0 0; append 0 2; insert 0 3 9; append 1 1; append 1 4; addvalue 0 3; settype 2 5; shl 0 3 1; compact 0; resize 0 2; setminsize 0 1",
 		// renames: top-level, multiplexed (attached and detached), then removal and re-insertion
 		"newmsg 8; newmux 2 16; newstd 4; newstd 4; append 0 0; muxinsert 0 1 0 0; append 0 2; rename 1; rename 2; rename 0; muxremove 0 1; muxinsert 0 1 4 1; remove 0 0; rename 1; muxclearall 0",
 	},
@@ -331,6 +334,9 @@ var corpus = map[string][]string{
 		// growth with two followers and unevenly spread free bits, in the groups of a nested attached multiplexer
 		"newmsg 8; newmux 2 32; newmux 2 16; append 0 0; muxinsert 0 1 0 0; newstd 4; newstd 4; newstd 4; newstd 4; newstd 4; newstd 4; " +
 			"muxinsert 1 2 0 0; muxinsert 1 3 6 0; muxinsert 1 4 10 0; muxinsert 1 5 0 1; muxinsert 1 6 4 1; muxinsert 1 7 12 1; settype 2 8; settype 5 8",
+		// the non-vacuity examples of coq/C01/Examples.v: a shared follower that the push does not reach; the nested one
+		"newmux 2 16; newstd 2; newstd 2; newstd 2; muxinsert 0 1 0 0; muxinsert 0 2 2 0; muxinsert 0 3 8 -; settype 1 5",
+		"newmsg 8; newmux 4 16; newmux 2 8; newstd 4; newstd 4; newstd 3; newstd 2; append 0 0; muxinsert 0 2 0 -; muxinsert 0 1 4 1; muxinsert 1 3 0 0; muxinsert 1 4 4 0; muxinsert 0 5 4 0,2; muxinsert 0 5 4 3; settype 3 3; settype 3 4; muxshl 1 4 1; muxcleargroup 0 2; muxremove 0 2; shr 0 0 5; remove 0 3",
 		// renames of multiplexed signals (attached / nested / detached), then removal, clearing, detaching
 		"newmsg 8; newmux 2 32; newmux 2 8; newstd 4; newstd 4; newstd 2; append 0 0; muxinsert 0 3 0 -; muxinsert 0 1 4 1; muxinsert 1 5 0 0; muxinsert 0 4 4 0; " +
 			"rename 3; rename 5; rename 1; rename 4; muxremove 0 3; muxinsert 0 3 16 0; muxcleargroup 0 0; rename 5; remove 0 0; rename 5; rename 1; muxclearall 0",
